@@ -193,15 +193,37 @@ func lockstep(cfg *CfgSpec, ops map[string]*OpSpec, cp *Plan, src, dmp *Node, st
 		}
 		return ""
 	}
-	if src.K != dmp.K || src.Name != dmp.Name || len(src.Args) != len(dmp.Args) {
-		return fmt.Sprintf("folding-only compile rewrote %s into %s", src.Src(), dmp.Src())
+	structural := func() string {
+		if src.K != dmp.K || src.Name != dmp.Name || len(src.Args) != len(dmp.Args) {
+			return fmt.Sprintf("folding-only compile rewrote %s into %s", src.Src(), dmp.Src())
+		}
+		for i := range src.Args {
+			if d := lockstep(cfg, ops, cp, src.Args[i], dmp.Args[i], st); d != "" {
+				return d
+			}
+		}
+		return ""
 	}
-	for i := range src.Args {
-		if d := lockstep(cfg, ops, cp, src.Args[i], dmp.Args[i], st); d != "" {
-			return d
+	d := structural()
+	if d == "" || src.K != KIf {
+		return d
+	}
+	// an `if` whose condition folds to a boolean may be replaced by the branch
+	// it takes: nothing is evaluated that left-to-right evaluation would not
+	// evaluate, and no result is baked in. (The library does not do this
+	// today; a correct implementation of it must not be an alarm.)
+	if c, ok := foldsTo(cfg, ops, cp, src.Args[0]); ok {
+		if b, isBool := c.(bool); isBool {
+			if b {
+				return lockstep(cfg, ops, cp, src.Args[1], dmp, st)
+			}
+			return lockstep(cfg, ops, cp, src.Args[2], dmp, st)
+		}
+		if c == foldUnknown {
+			return ""
 		}
 	}
-	return ""
+	return d
 }
 
 func opCalls(log []Call, ops map[string]*OpSpec, undeclaredOnly bool) []Call {
